@@ -330,7 +330,7 @@ Proof.
   { unfold with_group. rewrite Hg. reflexivity. }
   rewrite Hwg in H.
   destruct (proto_core f) as [core|].
-  - destruct (loc_fend core <? loc_fstart core).
+  - destruct (loc_fend core <=? loc_fstart core).
     + destruct rc; inversion H; subst; cbn; repeat split; try discriminate; try (intros; eexists; repeat split; reflexivity); auto.
     + destruct (fstart f <=? loc_fstart core).
       * destruct rc; inversion H; subst; cbn; repeat split; try discriminate; try (intros; eexists; repeat split; reflexivity); auto.
@@ -387,11 +387,11 @@ Definition wf_region (N : Z) (rloc : loc) : Prop :=
   (exists r, rloc = [r] /\ 0 <= ps r /\ ps r < pe r /\ pe r <= N) \/
   (exists r1 r2, rloc = [r1; r2] /\ pst r1 = 1 /\ pst r2 = 1 /\ 0 < ps r1 /\ ps r1 < N /\ pe r1 = N /\
                  ps r2 = 0 /\ 0 < pe r2 /\ pe r2 <= ps r1).
-(* an area on that record: one non-empty part, or [s, N) + [0, e) with 0 < e < s *)
+(* an area on that record: one non-empty part, or [s, N) + [0, e) with 0 < e <= s (e = s: the whole ring) *)
 Definition wf_feat_ring (N : Z) (f : feat) : Prop :=
   (exists p, floc f = [p] /\ 0 <= ps p /\ ps p < pe p /\ pe p <= N) \/
   (exists p q, floc f = [p; q] /\ pst p = 1 /\ pst q = 1 /\ 0 < ps p /\ ps p < N /\ pe p = N /\
-               ps q = 0 /\ 0 < pe q /\ pe q < ps p).
+               ps q = 0 /\ 0 < pe q /\ pe q <= ps p).
 
 Definition area_ok (rloc : loc) (N h : Z) (f : feat) (a : area) : Prop :=
   extent_ok (range0 rloc N) a = true /\ a_height a = h /\ a_kind a = fkind f.
@@ -495,15 +495,15 @@ Qed.
 
 (* ---------- core inside the extent (protoclusters), start/end = extent (sub-regions, candidates) ---------- *)
 Lemma adjust_chain a f rc L g a' oe :
-  a_group a = 0 -> a_ne a < a_ns a -> a_ns a <= L -> 0 <= a_ne a ->
+  a_group a = 0 -> a_ne a <= a_ns a -> a_ns a <= L -> 0 <= a_ne a ->
   match proto_core f with
   | None => a_start a = a_ns a /\ a_end a = a_ne a /\ fend f = a_ne a
   | Some core =>
     let cs := loc_fstart core in let ce := loc_fend core in
     a_start a = cs /\ a_end a = ce /\
-    ((ce < cs /\ a_ns a <= cs /\ cs <= L /\ 0 <= ce /\ ce <= a_ne a) \/
-     (cs <= ce /\ fstart f <= cs /\ a_ns a <= cs /\ ce <= L) \/
-     (cs <= ce /\ ~ (fstart f <= cs) /\ 0 <= cs /\ ce <= a_ne a))
+    ((ce <= cs /\ a_ns a <= cs /\ cs <= L /\ 0 <= ce /\ ce <= a_ne a) \/
+     (cs < ce /\ fstart f <= cs /\ a_ns a <= cs /\ ce <= L) \/
+     (cs < ce /\ ~ (fstart f <= cs) /\ 0 <= cs /\ ce <= a_ne a))
   end ->
   adjust_cross_origin_area a f rc L g = Ok (a', oe) ->
   chain_ok a' = true /\ forall e, oe = Some e -> chain_ok e = true.
@@ -515,7 +515,7 @@ Proof.
   rewrite Hwg in H. unfold chain_ok.
   destruct (proto_core f) as [core|].
   - cbv zeta in Hc. destruct Hc as (Hs & He & Hcases).
-    destruct (loc_fend core <? loc_fstart core) eqn:B1.
+    destruct (loc_fend core <=? loc_fstart core) eqn:B1.
     + destruct rc; inversion H; subst; cbn; (split; [|intros e0 He0; inversion He0; subst; cbn]); lia.
     + destruct (fstart f <=? loc_fstart core) eqn:B2.
       * destruct rc; inversion H; subst; cbn; (split; [|intros e0 He0; inversion He0; subst; cbn]); lia.
@@ -528,7 +528,7 @@ Definition wf_core_in (N : Z) (f : feat) (core : loc) : Prop :=
   contains (floc f) core = true /\
   ((exists c, core = [c] /\ 0 <= ps c /\ ps c < pe c /\ pe c <= N) \/
    (exists c1 c2, core = [c1; c2] /\ pst c1 = 1 /\ pst c2 = 1 /\ 0 < ps c1 /\ ps c1 < N /\ pe c1 = N /\
-                  ps c2 = 0 /\ 0 < pe c2 /\ pe c2 < ps c1 /\ fcrosses f = true)).
+                  ps c2 = 0 /\ 0 < pe c2 /\ pe c2 <= ps c1 /\ fcrosses f = true)).
 
 (* well-formedness needed by the chain theorem: a protocluster has a core, which lies inside its extent.
    Nothing is asked of sub-regions and candidate clusters (their start/end ARE the extent).  This is
@@ -566,16 +566,16 @@ Qed.
 
 Lemma crossing_chain_pre N f h p q :
   core_wf N f -> floc f = [p; q] -> pst p = 1 -> pst q = 1 -> 0 < ps p -> ps p < N -> pe p = N ->
-  ps q = 0 -> 0 < pe q -> pe q < ps p ->
+  ps q = 0 -> 0 < pe q -> pe q <= ps p ->
   let a := from_feature f h in
   match proto_core f with
   | None => a_start a = a_ns a /\ a_end a = a_ne a /\ fend f = a_ne a
   | Some core =>
     let cs := loc_fstart core in let ce := loc_fend core in
     a_start a = cs /\ a_end a = ce /\
-    ((ce < cs /\ a_ns a <= cs /\ cs <= N /\ 0 <= ce /\ ce <= a_ne a) \/
-     (cs <= ce /\ fstart f <= cs /\ a_ns a <= cs /\ ce <= N) \/
-     (cs <= ce /\ ~ (fstart f <= cs) /\ 0 <= cs /\ ce <= a_ne a))
+    ((ce <= cs /\ a_ns a <= cs /\ cs <= N /\ 0 <= ce /\ ce <= a_ne a) \/
+     (cs < ce /\ fstart f <= cs /\ a_ns a <= cs /\ ce <= N) \/
+     (cs < ce /\ ~ (fstart f <= cs) /\ 0 <= cs /\ ce <= a_ne a))
   end.
 Proof.
   intros Hg Ef Ht1 Ht2 Hp0 Hp1 Hp2 Hp3 Hp4 Hp5. cbv zeta.
@@ -652,7 +652,7 @@ Lemma proto_chain_in_extent N circ rloc f core h conv grp st' :
   exists added, fst st' = conv ++ added /\ Forall (fun a => chain_ok a = true) added.
 Proof.
   intros Hr Hf Hcont Hguard Hk Hcore Hwf H.
-  eapply area_chain_in_extent; try eassumption.
+  apply (area_chain_in_extent N circ rloc f h conv grp st' Hr Hf Hcont Hguard); [|exact H].
   intros _. exists core. split; assumption.
 Qed.
 
@@ -664,7 +664,7 @@ Lemma cand_chain_in_extent N circ rloc f h conv grp st' :
   exists added, fst st' = conv ++ added /\ Forall (fun a => chain_ok a = true) added.
 Proof.
   intros Hr Hf Hcont Hguard Hk H.
-  eapply area_chain_in_extent; try eassumption.
+  apply (area_chain_in_extent N circ rloc f h conv grp st' Hr Hf Hcont Hguard); [|exact H].
   intros Hk'. rewrite Hk in Hk'. discriminate.
 Qed.
 
@@ -1413,11 +1413,21 @@ Qed.
 
 (* ---------- genes of convert_cds_features ---------- *)
 (* a gene on a record of length N inside the region: non-empty, every exon a non-empty interval of the
-   record, every exon inside a part of the region; a gene that crosses the origin has an exon ending at N
-   and one starting at 0 *)
+   record, every exon inside a part of the region.  Nothing is asked of the order of the exons (the former
+   clause "a gene that crosses the origin has an exon ending at N and one starting at 0" excluded the finding
+   class gene_long_way_round, repaired in the code) *)
 Definition wf_gene (N : Z) (rloc g : loc) : Prop :=
-  g <> [] /\ Forall (fun p => 0 <= ps p /\ ps p < pe p /\ pe p <= N) g /\ contains rloc g = true /\
-  (bridges g = true -> (exists p, In p g /\ pe p = N) /\ (exists q, In q g /\ ps q = 0)).
+  g <> [] /\ Forall (fun p => 0 <= ps p /\ ps p < pe p /\ pe p <= N) g /\ contains rloc g = true.
+(* an origin-crossing gene of the ordinary kind: an exon ends at N and one starts at 0 *)
+Definition touches_origin (N : Z) (g : loc) : Prop :=
+  (exists p, In p g /\ pe p = N) /\ (exists q, In q g /\ ps q = 0).
+(* the genes that are drawn as one arrow in an origin-crossing region (the former guard gene_guard of the finding
+   gene_across_region_gap, now only a case distinction): a gene that does not cross the origin lies in one of the
+   two parts of the region, a gene that does has its first exon before and its last exon after the origin *)
+Definition gene_ordinary (rloc g : loc) : bool :=
+  negb (bridges rloc) ||
+  (if bridges g then contains [first_part rloc] [start_part g] && contains [last_part rloc] [end_part g]
+   else contains [first_part rloc] g || contains [last_part rloc] g).
 Definition unroll (s N x : Z) : Z := if x <? s then x + N else x.
 
 (* ---------- first / last part ---------- *)
@@ -1520,12 +1530,18 @@ Proof.
   rewrite fstart_start_part, fend_end_part. clear - Ho He. lia.
 Qed.
 
+(* ---------- the shifted coordinates of the model are the unrolled positions ---------- *)
+Lemma unroll_start s N x : (if x <? s then x + 1 + N else x + 1) = unroll s N x + 1.
+Proof. unfold unroll. destruct (x <? s); lia. Qed.
+Lemma unroll_end s N y : (if y <=? s then y + N else y) = unroll s N (y - 1) + 1.
+Proof. unfold unroll. destruct (y <=? s) eqn:A; destruct (y - 1 <? s) eqn:B; lia. Qed.
+
 (* ---------- region that does not cross the origin ---------- *)
 Lemma unwrapped_bridging_gene_whole_record N r g :
-  0 <= ps r -> pe r <= N -> wf_gene N [r] g -> bridges g = true -> ps r = 0 /\ pe r = N.
+  0 <= ps r -> pe r <= N -> wf_gene N [r] g -> touches_origin N g -> ps r = 0 /\ pe r = N.
 Proof.
-  intros Hr0 HrN W Hb. destruct W as (_ & _ & Hc & Hx).
-  destruct (Hx Hb) as ((p & Hp & HpN) & (q & Hq & Hq0)).
+  intros Hr0 HrN W Hx. destruct W as (_ & _ & Hc).
+  destruct Hx as ((p & Hp & HpN) & (q & Hq & Hq0)).
   pose proof (contains1 r g Hc p Hp). pose proof (contains1 r g Hc q Hq).
   clear - Hr0 HrN HpN Hq0 H H0. lia.
 Qed.
@@ -1537,111 +1553,145 @@ Lemma genes_unwrapped_region N r g grp more :
        mkOrf (loc_fstart g + 1) (loc_fend g) (strand_or_1 (lstrand g)) 0
        :: convert_cds_features [r] N grp more) /\
   (bridges g = true ->
-     ps r = 0 /\ pe r = N /\
      convert_cds_features [r] N grp (g :: more) =
-       mkOrf (loc_fstart g + 1) N (if lstrand g =? -1 then strand_or_1 (lstrand g) else 0) (grp + 1)
-       :: mkOrf 1 (loc_fend g) (if lstrand g =? -1 then 0 else strand_or_1 (lstrand g)) (grp + 1)
+       mkOrf (loc_fstart g + 1) (pe r) (if lstrand g =? -1 then strand_or_1 (lstrand g) else 0) (grp + 1)
+       :: mkOrf (ps r + 1) (loc_fend g) (if lstrand g =? -1 then 0 else strand_or_1 (lstrand g)) (grp + 1)
        :: convert_cds_features [r] N (grp + 1) more /\
-     (0 <= grp -> grp + 1 <> 0)).
+     (0 <= grp -> grp + 1 <> 0) /\
+     (touches_origin N g -> ps r = 0 /\ pe r = N)).
 Proof.
-  intros Hr0 Hr1 HrN W. destruct (loc1_facts r) as (Rb & _).
+  intros Hr0 Hr1 HrN W. destruct (loc1_facts r) as (Rb & Rs & Re & _).
   split; intros Hb.
-  - cbn [convert_cds_features]. rewrite Rb, Hb. reflexivity.
-  - destruct (unwrapped_bridging_gene_whole_record N r g Hr0 HrN W Hb) as (H0 & H1).
-    split; [exact H0|]. split; [exact H1|]. split.
-    + cbn [convert_cds_features]. rewrite Rb, Hb. reflexivity.
+  - pose proof (nb_start_le_end N _ g W Hb) as Hlt.
+    assert (E : (loc_fend g <? loc_fstart g + 1) = false) by (clear - Hlt; lia).
+    cbn [convert_cds_features]. rewrite Rb, Hb. cbn [negb andb orb]. rewrite E. reflexivity.
+  - split; [|split].
+    + cbn [convert_cds_features]. rewrite Rb, Hb, Rs, Re. reflexivity.
     + intros. lia.
+    + intros Hx. exact (unwrapped_bridging_gene_whole_record N r g Hr0 HrN W Hx).
 Qed.
 
 (* ---------- region that crosses the origin ---------- *)
+Lemma contains2 r1 r2 g : contains [r1; r2] g = true ->
+  forall p, In p g -> (ps r1 <= ps p /\ pe p <= pe r1) \/ (ps r2 <= ps p /\ pe p <= pe r2).
+Proof.
+  unfold contains. rewrite forallb_forall. intros H p Hp. specialize (H p Hp).
+  cbn [existsb] in H. unfold part_contains in H. clear - H. lia.
+Qed.
+
+(* every gene: one arrow between the unrolled positions of its first and last base, or - when these are not
+   in order, the gene leaving the region at one end and returning at the other - two linked halves reaching the
+   ends of the region; all of it inside the announced range *)
 Lemma wrapped_gene N r1 r2 g grp more :
   pst r1 = 1 -> pst r2 = 1 -> 0 < ps r1 -> ps r1 < N -> pe r1 = N -> ps r2 = 0 -> 0 < pe r2 ->
   pe r2 <= ps r1 ->
-  wf_gene N [r1; r2] g -> gene_guard [r1; r2] g = true ->
+  wf_gene N [r1; r2] g ->
   let a := unroll (ps r1) N (loc_fstart g) + 1 in
   let b := unroll (ps r1) N (loc_fend g - 1) + 1 in
   convert_cds_features [r1; r2] N grp (g :: more) =
-    mkOrf a b (strand_or_1 (lstrand g)) 0 :: convert_cds_features [r1; r2] N grp more /\
-  ps r1 + 1 <= a /\ a <= b + 1 /\ b <= N + pe r2.
+    (if b <? a then
+       mkOrf a (pe r2 + N) (if lstrand g =? -1 then strand_or_1 (lstrand g) else 0) (grp + 1)
+       :: mkOrf (ps r1 + 1) b (if lstrand g =? -1 then 0 else strand_or_1 (lstrand g)) (grp + 1)
+       :: convert_cds_features [r1; r2] N (grp + 1) more
+     else mkOrf a b (strand_or_1 (lstrand g)) 0 :: convert_cds_features [r1; r2] N grp more) /\
+  ps r1 + 1 <= a /\ a <= N + pe r2 /\ ps r1 <= b /\ b <= N + pe r2.
 Proof.
-  intros Hs1 Hs2 Hr0 HrN Hr1 Hr3 Hr4 Hr5 W G.
+  intros Hs1 Hs2 Hr0 HrN Hr1 Hr3 Hr4 Hr5 W.
   destruct (loc2_facts r1 r2 Hs1 Hs2 Hr3 Hr0) as (Rb & Rs & Re & Rlast & Rfirst).
-  pose proof W as (Hne & _ & _ & Hx).
+  pose proof W as (Hne & _ & Hc).
   pose proof (wf_gene_part N _ g _ W (start_part_in g Hne)) as Psp.
   pose proof (wf_gene_part N _ g _ W (end_part_in g Hne)) as Pep.
-  unfold gene_guard in G. rewrite Rb, Rlast, Rfirst in G. cbn [negb orb] in G.
-  cbn [convert_cds_features]. rewrite Rb, Rlast. cbn [negb]. rewrite andb_false_r.
-  cbv zeta. rewrite !fstart_start_part, !fend_end_part.
-  destruct (contains [r2] g) eqn:C2.
-  - (* the gene lies after the origin *)
-    assert (Hb : bridges g = false).
-    { destruct (bridges g) eqn:Hb; [|reflexivity]. exfalso.
-      destruct (Hx eq_refl) as ((p & Hp & HpN) & _).
-      pose proof (contains1 r2 g C2 p Hp). clear - H HpN Hr5 HrN. lia. }
-    pose proof (nb_order g Hne Hb) as Ho.
-    pose proof (contains1 r2 g C2 _ (start_part_in g Hne)) as Csp.
-    pose proof (contains1 r2 g C2 _ (end_part_in g Hne)) as Cep.
-    unfold unroll.
-    assert (E1 : (ps (start_part g) <? ps r1) = true) by (clear - Psp Csp Hr5; lia).
-    assert (E2 : (pe (end_part g) - 1 <? ps r1) = true) by (clear - Cep Hr5; lia).
-    rewrite E1, E2. split.
-    + f_equal; f_equal; clear; lia.
-    + clear - Psp Pep Csp Cep Ho Hr5 HrN Hr0. lia.
-  - destruct (bridges g) eqn:Hb.
-    + (* the gene crosses the origin *)
-      apply andb_true_iff in G. destruct G as [G1 G2].
-      apply contains1_single in G1. apply contains1_single in G2.
-      unfold unroll.
-      assert (E1 : (ps (start_part g) <? ps r1) = false) by (clear - G1; lia).
-      assert (E2 : (pe (end_part g) - 1 <? ps r1) = true) by (clear - G2 Hr5; lia).
-      rewrite E1, E2. split.
-      * f_equal; f_equal; clear; lia.
-      * clear - Psp Pep G1 G2 Hr5 HrN Hr0 Hr1. lia.
-    + (* the gene lies before the origin *)
-      cbn [orb] in G. rewrite orb_false_r in G.
-      pose proof (nb_order g Hne Hb) as Ho.
-      pose proof (contains1 r1 g G _ (start_part_in g Hne)) as Csp.
-      pose proof (contains1 r1 g G _ (end_part_in g Hne)) as Cep.
-      unfold unroll.
-      assert (E1 : (ps (start_part g) <? ps r1) = false) by (clear - Csp; lia).
-      assert (E2 : (pe (end_part g) - 1 <? ps r1) = false) by (clear - Cep Pep; lia).
-      rewrite E1, E2. split.
-      * f_equal; f_equal; clear; lia.
-      * clear - Psp Pep Csp Cep Ho Hr5 HrN Hr0 Hr1 Hr4. lia.
-Qed.
-
-Lemma genes_unrolled_parts N r1 r2 genes grp :
-  pst r1 = 1 -> pst r2 = 1 -> 0 < ps r1 -> ps r1 < N -> pe r1 = N -> ps r2 = 0 -> 0 < pe r2 ->
-  pe r2 <= ps r1 ->
-  Forall (wf_gene N [r1; r2]) genes -> Forall (fun g => gene_guard [r1; r2] g = true) genes ->
-  bridges [r1; r2] = true /\
-  convert_cds_features [r1; r2] N grp genes =
-    map (fun g => mkOrf (unroll (loc_fstart [r1; r2]) N (loc_fstart g) + 1)
-                        (unroll (loc_fstart [r1; r2]) N (loc_fend g - 1) + 1)
-                        (strand_or_1 (lstrand g)) 0) genes.
-Proof.
-  intros Hs1 Hs2 Hr0 HrN Hr1 Hr3 Hr4 Hr5 HW HG.
-  destruct (loc2_facts r1 r2 Hs1 Hs2 Hr3 Hr0) as (Rb & Rs & _).
-  split; [exact Rb|]. rewrite Rs.
-  induction genes as [|g more IH].
-  - reflexivity.
-  - pose proof (Forall_inv HW) as W; pose proof (Forall_inv_tail HW) as HW'. pose proof (Forall_inv HG) as G; pose proof (Forall_inv_tail HG) as HG'.
-    destruct (wrapped_gene N r1 r2 g grp more Hs1 Hs2 Hr0 HrN Hr1 Hr3 Hr4 Hr5 W G) as (E & _).
-    rewrite E. cbn [map]. f_equal. apply IH; assumption.
+  pose proof (contains2 r1 r2 g Hc _ (start_part_in g Hne)) as Csp.
+  pose proof (contains2 r1 r2 g Hc _ (end_part_in g Hne)) as Cep.
+  cbv zeta. split.
+  - cbn [convert_cds_features]. rewrite Rb, Rs, Re. cbn [negb]. rewrite andb_false_r. cbn [orb].
+    rewrite unroll_start, unroll_end. reflexivity.
+  - rewrite fstart_start_part, fend_end_part. unfold unroll.
+    destruct (ps (start_part g) <? ps r1) eqn:E1; destruct (pe (end_part g) - 1 <? ps r1) eqn:E2;
+      clear - Psp Pep Csp Cep Hr0 HrN Hr1 Hr3 Hr4 Hr5 E1 E2; lia.
 Qed.
 
 (* the same statement phrased with wf_region and bridges as hypotheses *)
+Lemma genes_shifted N rloc g grp more :
+  wf_region N rloc -> bridges rloc = true -> wf_gene N rloc g ->
+  let a := unroll (loc_fstart rloc) N (loc_fstart g) + 1 in
+  let b := unroll (loc_fstart rloc) N (loc_fend g - 1) + 1 in
+  convert_cds_features rloc N grp (g :: more) =
+    (if b <? a then
+       mkOrf a (loc_fend rloc + N) (if lstrand g =? -1 then strand_or_1 (lstrand g) else 0) (grp + 1)
+       :: mkOrf (loc_fstart rloc + 1) b (if lstrand g =? -1 then 0 else strand_or_1 (lstrand g)) (grp + 1)
+       :: convert_cds_features rloc N (grp + 1) more
+     else mkOrf a b (strand_or_1 (lstrand g)) 0 :: convert_cds_features rloc N grp more) /\
+  (0 <= grp -> grp + 1 <> 0).
+Proof.
+  intros [(r & -> & _) | (r1 & r2 & -> & Hs1 & Hs2 & Hr0 & HrN & Hr1 & Hr3 & Hr4 & Hr5)] Hb W.
+  - destruct (loc1_facts r) as (Rb & _). congruence.
+  - destruct (loc2_facts r1 r2 Hs1 Hs2 Hr3 Hr0) as (_ & Rs & Re & _). rewrite Rs, Re.
+    split; [|intros; lia].
+    exact (proj1 (wrapped_gene N r1 r2 g grp more Hs1 Hs2 Hr0 HrN Hr1 Hr3 Hr4 Hr5 W)).
+Qed.
+
+(* a gene of the ordinary kind is never split in an origin-crossing region *)
+Lemma ordinary_gene_in_order N r1 r2 g :
+  pst r1 = 1 -> pst r2 = 1 -> 0 < ps r1 -> ps r1 < N -> pe r1 = N -> ps r2 = 0 -> 0 < pe r2 ->
+  pe r2 <= ps r1 ->
+  wf_gene N [r1; r2] g -> (bridges g = true -> touches_origin N g) -> gene_ordinary [r1; r2] g = true ->
+  (unroll (ps r1) N (loc_fend g - 1) + 1 <? unroll (ps r1) N (loc_fstart g) + 1) = false.
+Proof.
+  intros Hs1 Hs2 Hr0 HrN Hr1 Hr3 Hr4 Hr5 W Hx G.
+  destruct (loc2_facts r1 r2 Hs1 Hs2 Hr3 Hr0) as (Rb & Rs & Re & Rlast & Rfirst).
+  pose proof W as (Hne & _ & _).
+  pose proof (wf_gene_part N _ g _ W (start_part_in g Hne)) as Psp.
+  pose proof (wf_gene_part N _ g _ W (end_part_in g Hne)) as Pep.
+  unfold gene_ordinary in G. rewrite Rb, Rlast, Rfirst in G. cbn [negb orb] in G.
+  rewrite !fstart_start_part, !fend_end_part. unfold unroll.
+  destruct (bridges g) eqn:Hb.
+  - (* the gene crosses the origin *)
+    apply andb_true_iff in G. destruct G as [G1 G2].
+    apply contains1_single in G1. apply contains1_single in G2.
+    assert (E1 : (ps (start_part g) <? ps r1) = false) by (clear - G1; lia).
+    assert (E2 : (pe (end_part g) - 1 <? ps r1) = true) by (clear - G2 Hr5; lia).
+    rewrite E1, E2. clear - Psp Pep G1 G2 Hr5 HrN Hr0 Hr1. lia.
+  - pose proof (nb_order g Hne Hb) as Ho.
+    apply orb_true_iff in G. destruct G as [G | G].
+    + (* before the origin *)
+      pose proof (contains1 r1 g G _ (start_part_in g Hne)) as Csp.
+      pose proof (contains1 r1 g G _ (end_part_in g Hne)) as Cep.
+      assert (E1 : (ps (start_part g) <? ps r1) = false) by (clear - Csp; lia).
+      assert (E2 : (pe (end_part g) - 1 <? ps r1) = false) by (clear - Cep Pep; lia).
+      rewrite E1, E2. clear - Psp Pep Ho. lia.
+    + (* after the origin *)
+      pose proof (contains1 r2 g G _ (start_part_in g Hne)) as Csp.
+      pose proof (contains1 r2 g G _ (end_part_in g Hne)) as Cep.
+      assert (E1 : (ps (start_part g) <? ps r1) = true) by (clear - Psp Csp Hr5; lia).
+      assert (E2 : (pe (end_part g) - 1 <? ps r1) = true) by (clear - Cep Hr5; lia).
+      rewrite E1, E2. clear - Psp Pep Ho. lia.
+Qed.
+
+(* on the genes of the ordinary kind the repaired code emits what the code emitted before: every gene once,
+   between the unrolled positions of its first and last base *)
 Lemma genes_unrolled N rloc genes grp :
-  wf_region N rloc -> Forall (wf_gene N rloc) genes -> Forall (fun g => gene_guard rloc g = true) genes ->
+  wf_region N rloc -> Forall (wf_gene N rloc) genes ->
+  Forall (fun g => bridges g = true -> touches_origin N g) genes ->
+  Forall (fun g => gene_ordinary rloc g = true) genes ->
   bridges rloc = true ->
   convert_cds_features rloc N grp genes =
     map (fun g => mkOrf (unroll (loc_fstart rloc) N (loc_fstart g) + 1)
                         (unroll (loc_fstart rloc) N (loc_fend g - 1) + 1)
                         (strand_or_1 (lstrand g)) 0) genes.
 Proof.
-  intros [(r & -> & _) | (r1 & r2 & -> & Hs1 & Hs2 & Hr0 & HrN & Hr1 & Hr3 & Hr4 & Hr5)] HW HG Hb.
+  intros [(r & -> & _) | (r1 & r2 & -> & Hs1 & Hs2 & Hr0 & HrN & Hr1 & Hr3 & Hr4 & Hr5)] HW HX HG Hb.
   - destruct (loc1_facts r) as (Rb & _). congruence.
-  - apply genes_unrolled_parts; assumption.
+  - destruct (loc2_facts r1 r2 Hs1 Hs2 Hr3 Hr0) as (_ & Rs & _). rewrite Rs.
+    induction genes as [|g more IH].
+    + reflexivity.
+    + pose proof (Forall_inv HW) as W; pose proof (Forall_inv_tail HW) as HW'.
+      pose proof (Forall_inv HX) as X; pose proof (Forall_inv_tail HX) as HX'.
+      pose proof (Forall_inv HG) as G; pose proof (Forall_inv_tail HG) as HG'.
+      destruct (wrapped_gene N r1 r2 g grp more Hs1 Hs2 Hr0 HrN Hr1 Hr3 Hr4 Hr5 W) as (E & _).
+      cbv zeta in E. rewrite E.
+      rewrite (ordinary_gene_in_order N r1 r2 g Hs1 Hs2 Hr0 HrN Hr1 Hr3 Hr4 Hr5 W X G).
+      cbn [map]. f_equal. apply IH; assumption.
 Qed.
 
 Lemma spec_orfs_cons se w o l :
@@ -1651,40 +1701,43 @@ Lemma spec_orfs_cons se w o l :
 Proof. reflexivity. Qed.
 
 Lemma genes_in_range N rloc genes se :
-  wf_region N rloc -> Forall (wf_gene N rloc) genes -> Forall (fun g => gene_guard rloc g = true) genes ->
+  wf_region N rloc -> Forall (wf_gene N rloc) genes ->
   region_range rloc N = Ok se ->
   forall grp, spec_orfs se (bridges rloc) (convert_cds_features rloc N grp genes) = true.
 Proof.
   intros [(r & -> & Hr0 & Hr1 & HrN) | (r1 & r2 & -> & Hs1 & Hs2 & Hr0 & HrN & Hr1 & Hr3 & Hr4 & Hr5)]
-         HW HG HR.
+         HW HR.
   - destruct (loc1_facts r) as (Rb & _ & _ & Rls & Rle & _).
     unfold region_range in HR. rewrite Rb, Rls, Rle in HR. inversion HR; subst se; clear HR.
-    rewrite Rb. clear HG.
+    rewrite Rb.
     induction genes as [|g more IH]; intros grp.
     + reflexivity.
     + pose proof (Forall_inv HW) as W; pose proof (Forall_inv_tail HW) as HW'.
       destruct (genes_unwrapped_region N r g grp more Hr0 Hr1 HrN W) as (Hnb & Hbr).
-      pose proof W as (Hne & _ & Hc & _).
+      pose proof W as (Hne & _ & Hc).
       pose proof (wf_gene_part N _ g _ W (start_part_in g Hne)) as Psp.
       pose proof (wf_gene_part N _ g _ W (end_part_in g Hne)) as Pep.
       pose proof (contains1 r g Hc _ (start_part_in g Hne)) as Csp.
       pose proof (contains1 r g Hc _ (end_part_in g Hne)) as Cep.
       destruct (bridges g) eqn:Hb.
-      * destruct (Hbr eq_refl) as (H0 & H1 & E & _). rewrite E.
+      * destruct (Hbr eq_refl) as (E & _). rewrite E.
         rewrite !spec_orfs_cons, (IH HW' (grp + 1)). cbn [o_start o_end fst snd]. rewrite fstart_start_part, fend_end_part.
-        clear - H0 H1 Psp Pep. lia.
+        clear - Psp Pep Csp Cep. lia.
       * rewrite (Hnb eq_refl).
         pose proof (nb_start_le_end N _ g W Hb) as Hlt.
         rewrite !spec_orfs_cons, (IH HW' grp). cbn [o_start o_end fst snd]. rewrite fstart_start_part, fend_end_part in *.
         clear - Hlt Csp Cep. lia.
   - destruct (loc2_facts r1 r2 Hs1 Hs2 Hr3 Hr0) as (Rb & Rs & Re & Rlast & Rfirst).
     unfold region_range in HR. rewrite Rb, Rs, Rlast, Hr3 in HR. cbn in HR.
-    inversion HR; subst se; clear HR. rewrite Rb. intros grp.
-    induction genes as [|g more IH].
+    inversion HR; subst se; clear HR. rewrite Rb.
+    induction genes as [|g more IH]; intros grp.
     + reflexivity.
-    + pose proof (Forall_inv HW) as W; pose proof (Forall_inv_tail HW) as HW'. pose proof (Forall_inv HG) as G; pose proof (Forall_inv_tail HG) as HG'.
-      destruct (wrapped_gene N r1 r2 g grp more Hs1 Hs2 Hr0 HrN Hr1 Hr3 Hr4 Hr5 W G) as (E & B1 & B2 & B3).
-      rewrite E, spec_orfs_cons, (IH HW' HG'). cbn [o_start o_end fst snd]. clear - B1 B2 B3. lia.
+    + pose proof (Forall_inv HW) as W; pose proof (Forall_inv_tail HW) as HW'.
+      destruct (wrapped_gene N r1 r2 g grp more Hs1 Hs2 Hr0 HrN Hr1 Hr3 Hr4 Hr5 W) as (E & B1 & B2 & B3 & B4).
+      cbv zeta in E. rewrite E.
+      destruct (_ <? _) eqn:Hsplit.
+      * rewrite !spec_orfs_cons, (IH HW' (grp + 1)). cbn [o_start o_end fst snd]. clear - B1 B2 B3 B4 Hr0. lia.
+      * rewrite spec_orfs_cons, (IH HW' grp). cbn [o_start o_end fst snd]. clear - B1 B2 B3 B4 Hsplit. lia.
 Qed.
 
 (* a well-formed region that does not cross the origin has one part *)
@@ -1711,9 +1764,7 @@ Definition ex_genes : list loc :=
     [mkPart 0 15 (-1); mkPart 980 1000 (-1)] ].
 
 Ltac wf_gene_tac :=
-  unfold ex_N, ex_rloc; split; [discriminate|]; split; [repeat (apply Forall_cons; [cbn; lia|]); apply Forall_nil|]; split; [reflexivity|];
-  intros Hb; first [ vm_compute in Hb; discriminate Hb
-                   | split; eauto 8 using in_eq, in_cons ].
+  unfold ex_N, ex_rloc; split; [discriminate|]; split; [repeat (apply Forall_cons; [cbn; lia|]); apply Forall_nil|reflexivity].
 
 (* ====================================================================================================== *)
 (* third pass: Region.get_unique_protoclusters as a whole (set by identity, then the sort), and
@@ -1830,7 +1881,7 @@ Proof.
   - assert (Hp : a_kind a <> K_Cand).
     { unfold proto_core in EP. destruct (fkind f =? K_Proto) eqn:K; [|discriminate].
       apply Z.eqb_eq in K. unfold K_Proto, K_Cand in *. lia. }
-    destruct (loc_fend core <? loc_fstart core); [|destruct (fstart f <=? loc_fstart core)];
+    destruct (loc_fend core <=? loc_fstart core); [|destruct (fstart f <=? loc_fstart core)];
       destruct rc; inversion H; subst; (split; [|intros e He; inversion He; subst]);
       unfold tag_pres; cbn; repeat split; auto; intros; contradiction.
   - destruct rc; inversion H; subst; (split; [|intros e He; inversion He; subst]);
